@@ -187,8 +187,10 @@ def mutate_tree(rng, tree):
             # the last variant has half as many pairs as the sequence had items (pairs are twice as wide as items)
             new = rng.choice([S("x"), S("~", "p"), M([]), M([(str(i), clone(x)) for i, x in enumerate(nd.items)]), S(""),
                               M([(clone(nd.items[i]), clone(nd.items[i + 1])) for i in range(0, len(nd.items) - 1, 2)])])
-        else:
+        elif nd.kind == "M":
             new = rng.choice([S("x"), S("~", "p"), Q([]), Q([clone(v) for k2, v in nd.pairs]), S("1")])
+        else:                                            # raw alias text inserted by an earlier mutation
+            new = rng.choice([S("x"), Q([]), M([])])
         put(parent, slot, new)
         return "kind:%s->%s" % (nd.kind, new.kind), t
     maps = [x for _, _, x in nodes if x.kind == "M" and x.pairs] + ([t] if t.pairs else [])
@@ -287,6 +289,7 @@ def directed_cases(rng):
                                    ("data", Q([M([("f", S("1e9")), ("ts", Q([M([(S("1"), S("1"))])])), ("ti", Q([Q([S("1")])])),
                                                   ("tx", Q([Q([S("1")])])), ("tm", M([(S("1"), Q([S("1")]))]))])]))])]))])
     out.append(("matrix-as-mapping", tr))
+    out.append(("entry-key-non-ascii", t8(["1e9"], extra={0: [("\u00e9t\u00e9", S("x")), ("\u00ff", S("y"))]})))
     out.append(("dims-T-tall", t8(["1e9"], rows=2, cols=1)))
     out.append(("dims-U-wide", t8(["1e9"], rows=1, cols=2, typ="U8")))
     out.append(("dims-zero", t8(["1e9"], rows=0, cols=0)))
